@@ -141,20 +141,48 @@ __CPROVER_assigns(self->position, self->write_size, g_size, g_nesc, g_src, g_esc
 #define OPOS          (fsm == CAT_FSM_TYPE_ATCMD ? OLD(self->position) : OLD(self->unsolicited_fsm.position))
 #define NPOS          POSF(self, fsm)
 #define FB            BUFF(self, fsm)
-#define PREFIX_KEPT   ((g_k < OPOS) ==> FB[g_k] == g_oldtext)
+/* the text that was in the half below g_pfx (a ghost bound <= the cursor of the outermost formatter call) is left alone;
+ * witness index g_k, its value before the call in g_oldtext */
+#define PREFIX_PRE    (g_pfx <= POSF(self, fsm) && (g_k < g_pfx ==> BUFF(self, fsm)[g_k] == g_oldtext))
+#define PREFIX_KEPT   (g_k < g_pfx ==> FB[g_k] == g_oldtext)
+/* format_* level: own pair of ghosts; at entry the helper-level pair equals it (refreshed by the loop ghosts before each helper call) */
+#define PREFIX1_PRE   (g_pfx1 <= POSF(self, fsm) && (g_k < g_pfx1 ==> BUFF(self, fsm)[g_k] == g_oldtext1) && g_pfx == g_pfx1 && g_oldtext == g_oldtext1)
+#define PREFIX1_KEPT  (g_k < g_pfx1 ==> FB[g_k] == g_oldtext1)
 
 static int print_nstring_to_buf(struct cat_object *self, const char *str, size_t len, cat_fsm_type fsm)
 __CPROVER_requires(FMT_PRE(self, fsm))
-__CPROVER_requires(g_k < POSF(self, fsm) ==> BUFF(self, fsm)[g_k] == g_oldtext)
+__CPROVER_requires(PREFIX_PRE)
 __CPROVER_assigns(FMT_ASSIGNS)
 /* [C03,C19:pn-refuse]   */ __CPROVER_ensures(RET == ((len >= CAPF(self, fsm) - OPOS) ? -1 : 0))
 /* [C19:pn-refuse-clean] */ __CPROVER_ensures(RET == -1 ==> NPOS == OPOS)
 /* [C03,C19:pn-append]   */ __CPROVER_ensures(RET == 0 ==> (NPOS == OPOS + len && NPOS < CAPF(self, fsm) && FB[NPOS] == 0))
+/* [C19:pn-ends]         */ __CPROVER_ensures((RET == 0 && len >= 1) ==> (FB[OPOS] == (uint8_t)str[0] && FB[NPOS - 1] == (uint8_t)str[len - 1]))
 /* [C19:pn-text]         */ __CPROVER_ensures((RET == 0 && g_j < len) ==> FB[OPOS + g_j] == (uint8_t)str[g_j])
 /* [C19:pn-prefix]       */ __CPROVER_ensures(PREFIX_KEPT)
 ;
 
 #define HEXCH(n)      ((uint8_t)((n) < 10 ? '0' + (n) : 'A' + ((n) - 10)))
+/* length of a short NUL-terminated text (spec side; 9 = longer than anything the formatters print through this helper) */
+static size_t s_len8(const char *t)
+{
+        size_t i;
+        for (i = 0; i < 9; i++)
+                if (t[i] == 0)
+                        return i;
+        return 9;
+}
+
+static int print_string_to_buf(struct cat_object *self, const char *str, cat_fsm_type fsm)
+__CPROVER_requires(FMT_PRE(self, fsm) && s_len8(str) <= 8)
+__CPROVER_requires(PREFIX_PRE)
+__CPROVER_assigns(FMT_ASSIGNS)
+/* [C03,C19:ps-refuse]   */ __CPROVER_ensures(RET == ((s_len8(str) >= CAPF(self, fsm) - OPOS) ? -1 : 0))
+/* [C19:ps-refuse-clean] */ __CPROVER_ensures(RET == -1 ==> NPOS == OPOS)
+/* [C03,C19:ps-append]   */ __CPROVER_ensures(RET == 0 ==> (NPOS == OPOS + s_len8(str) && NPOS < CAPF(self, fsm) && FB[NPOS] == 0))
+/* [C19:ps-ends]         */ __CPROVER_ensures((RET == 0 && s_len8(str) >= 1) ==> (FB[OPOS] == (uint8_t)str[0] && FB[NPOS - 1] == (uint8_t)str[s_len8(str) - 1]))
+/* [C19:ps-prefix]       */ __CPROVER_ensures(PREFIX_KEPT)
+;
+
 /* the canonical numerals the property text speaks of (written from the statement; width-bounded loops) */
 static _Bool s_is_decimal_of(const uint8_t *t, size_t n, unsigned long long mag)
 {
@@ -206,7 +234,7 @@ static int s_fmt_kind(const char *f)
 
 static int print_format_num(struct cat_object *self, char *fmt, uint32_t val, cat_fsm_type fsm)
 __CPROVER_requires(FMT_PRE(self, fsm) && s_fmt_kind(fmt) >= 0 && (s_fmt_kind(fmt) < 2 || s_fmt_kind(fmt) == 5 || val <= (s_fmt_kind(fmt) == 4 ? 0xFFFFu : 0xFFu)))
-__CPROVER_requires(g_k < POSF(self, fsm) ==> BUFF(self, fsm)[g_k] == g_oldtext)
+__CPROVER_requires(PREFIX_PRE)
 __CPROVER_assigns(FMT_ASSIGNS)
 /* [C19:pf-retcode]      */ __CPROVER_ensures(RET == 0 || RET == -1)
 /* [C07,C19:pf-refuse-clean] */ __CPROVER_ensures(RET == -1 ==> NPOS == OPOS)
@@ -229,53 +257,53 @@ __CPROVER_assigns(FMT_ASSIGNS)
 
 static int format_int_decimal(struct cat_object *self, cat_fsm_type fsm)
 __CPROVER_requires(FVAR_PRE(self, fsm))
-__CPROVER_requires(g_k < POSF(self, fsm) ==> BUFF(self, fsm)[g_k] == g_oldtext)
-__CPROVER_assigns(FMT_ASSIGNS)
+__CPROVER_requires(PREFIX1_PRE)
+__CPROVER_assigns(g_pfx, g_oldtext; FMT_ASSIGNS)
 /* [C07:fi-size]         */ __CPROVER_ensures(!SZOK(VF) ==> (RET == -1 && NPOS == OPOS))
 /* [C07:fi-refuse-clean] */ __CPROVER_ensures(RET == -1 ==> NPOS == OPOS)
 /* [C03,C07:fi-cursor]   */ __CPROVER_ensures(RET == 0 ==> (SZOK(VF) && NPOS > OPOS && NPOS < CAPF(self, fsm) && FB[NPOS] == 0))
-/* [C07:fi-prefix]       */ __CPROVER_ensures(PREFIX_KEPT)
+/* [C07:fi-prefix]       */ __CPROVER_ensures(PREFIX1_KEPT)
 ;
 
 static int format_uint_decimal(struct cat_object *self, cat_fsm_type fsm)
 __CPROVER_requires(FVAR_PRE(self, fsm))
-__CPROVER_requires(g_k < POSF(self, fsm) ==> BUFF(self, fsm)[g_k] == g_oldtext)
-__CPROVER_assigns(FMT_ASSIGNS)
+__CPROVER_requires(PREFIX1_PRE)
+__CPROVER_assigns(g_pfx, g_oldtext; FMT_ASSIGNS)
 /* [C07:fu-size]         */ __CPROVER_ensures(!SZOK(VF) ==> (RET == -1 && NPOS == OPOS))
 /* [C07:fu-refuse-clean] */ __CPROVER_ensures(RET == -1 ==> NPOS == OPOS)
 /* [C03,C07:fu-cursor]   */ __CPROVER_ensures(RET == 0 ==> (SZOK(VF) && NPOS > OPOS && NPOS < CAPF(self, fsm) && FB[NPOS] == 0))
-/* [C07:fu-prefix]       */ __CPROVER_ensures(PREFIX_KEPT)
+/* [C07:fu-prefix]       */ __CPROVER_ensures(PREFIX1_KEPT)
 ;
 
 static int format_num_hexadecimal(struct cat_object *self, cat_fsm_type fsm)
 __CPROVER_requires(FVAR_PRE(self, fsm))
-__CPROVER_requires(g_k < POSF(self, fsm) ==> BUFF(self, fsm)[g_k] == g_oldtext)
-__CPROVER_assigns(FMT_ASSIGNS)
+__CPROVER_requires(PREFIX1_PRE)
+__CPROVER_assigns(g_pfx, g_oldtext; FMT_ASSIGNS)
 /* [C07:fh-size]         */ __CPROVER_ensures(!SZOK(VF) ==> (RET == -1 && NPOS == OPOS))
 /* [C07:fh-refuse-clean] */ __CPROVER_ensures(RET == -1 ==> NPOS == OPOS)
 /* [C03,C07:fh-cursor]   */ __CPROVER_ensures(RET == 0 ==> (SZOK(VF) && NPOS > OPOS && NPOS < CAPF(self, fsm) && FB[NPOS] == 0))
-/* [C07:fh-prefix]       */ __CPROVER_ensures(PREFIX_KEPT)
+/* [C07:fh-prefix]       */ __CPROVER_ensures(PREFIX1_KEPT)
 ;
 
 #define VBYTE(v, k)   (WO(v) ? 0 : ((uint8_t *)(v)->data)[k])
 static int format_buffer_hexadecimal(struct cat_object *self, cat_fsm_type fsm)
 __CPROVER_requires(FVAR_PRE(self, fsm))
-__CPROVER_requires(g_k < POSF(self, fsm) ==> BUFF(self, fsm)[g_k] == g_oldtext)
-__CPROVER_assigns(FMT_ASSIGNS)
+__CPROVER_requires(PREFIX1_PRE)
+__CPROVER_assigns(g_pfx, g_oldtext; FMT_ASSIGNS)
 /* [C07:fb-retcode]      */ __CPROVER_ensures(RET == 0 || RET == -1)
 /* [C07:fb-length]       */ __CPROVER_ensures(RET == 0 ==> (NPOS == OPOS + 2 * VF->data_size && NPOS < CAPF(self, fsm) && FB[NPOS] == 0))
-/* [C07,C08:fb-text]     */ __CPROVER_ensures((RET == 0 && g_j < VF->data_size) ==> (FB[OPOS + 2 * g_j] == HEXCH(VBYTE(VF, g_j) >> 4) && FB[OPOS + 2 * g_j + 1] == HEXCH(VBYTE(VF, g_j) & 15)))
-/* [C07:fb-prefix]       */ __CPROVER_ensures(PREFIX_KEPT)
+/* [C07,C08:fb-text]     */ __CPROVER_ensures((RET == 0 && OPOS <= g_k && g_k < NPOS) ==> FB[g_k] == (((g_k - OPOS) & 1) == 0 ? HEXCH(VBYTE(VF, (g_k - OPOS) >> 1) >> 4) : HEXCH(VBYTE(VF, (g_k - OPOS) >> 1) & 15)))
+/* [C07:fb-prefix]       */ __CPROVER_ensures(PREFIX1_KEPT)
 ;
 
 static int format_buffer_string(struct cat_object *self, cat_fsm_type fsm)
 __CPROVER_requires(FVAR_PRE(self, fsm))
-__CPROVER_requires(g_k < POSF(self, fsm) ==> BUFF(self, fsm)[g_k] == g_oldtext)
-__CPROVER_assigns(FMT_ASSIGNS)
+__CPROVER_requires(PREFIX1_PRE)
+__CPROVER_assigns(g_pfx, g_oldtext; FMT_ASSIGNS)
 /* [C07:fs-retcode]      */ __CPROVER_ensures(RET == 0 || RET == -1)
-/* [C07:fs-quotes]       */ __CPROVER_ensures(RET == 0 ==> (NPOS >= OPOS + 2 && NPOS < CAPF(self, fsm) && FB[NPOS] == 0 && FB[OPOS] == '"' && FB[NPOS - 1] == '"'))
+/* [C07:fs-quotes]       */ __CPROVER_ensures(RET == 0 ==> (NPOS >= OPOS + 2 && NPOS < CAPF(self, fsm) && FB[NPOS] == 0 && FB[NPOS - 1] == '"' && (g_k == OPOS ==> FB[g_k] == '"')))
 /* [C08:fs-write-only]   */ __CPROVER_ensures((RET == 0 && WO(VF)) ==> NPOS == OPOS + 2)
-/* [C07:fs-prefix]       */ __CPROVER_ensures(PREFIX_KEPT)
+/* [C07:fs-prefix]       */ __CPROVER_ensures(PREFIX1_KEPT)
 ;
 
 #endif
